@@ -1,3 +1,4 @@
+import HranoModel.Lemmas.Template
 import HranoModel.Props.C12
 import HranoModel.Lemmas.Leaf
 /-!
@@ -282,5 +283,45 @@ theorem single_csv_same_figures (cfg : RCfg) (d : LogDay) (db : Book) :
   | cons a rest =>
     right
     exact ⟨a.pos, a.neg, rfl, rfl⟩
+
+/-! ### the byte layout follows the formats read from the source on every run (`tools/facts`, `Model/Template.lean`) -/
+
+/-- `report totals` is the header format and the row format of `total_reporter.go`, as the source has them now, over the sorted accumulator. -/
+theorem totals_layout_follows_source (days : List LogDay) (db : Book) :
+    renderTotals days db =
+      (let acc := (allElements days).foldl (fun a e => accumulate a (contributions db e)) ([] : Accumulator)
+       if acc.isEmpty then [] else
+         Tmpl.sprintfA (Facts.totalFormats.getD 0 []) [.s (Bytes.ofString "positive"), .s (Bytes.ofString "negative"), .s (Bytes.ofString "sum"), .s (Bytes.ofString "element")]
+         ++ (acc.sorted.map (fun a => Tmpl.sprintfA (Facts.totalFormats.getD 1 []) [.q a.pos, .q a.neg, .q (a.pos + a.neg), .s a.name])).flatten) := by
+  simp only [renderTotals, Tmpl.row_t0, Tmpl.row_t1, List.append_assoc]
+
+/-- `report quantity` and `report element-total` print each row with the format of `quantity_reporter.go` / `element_reporter.go`. -/
+theorem value_rows_follow_source (es : Elements) :
+    valueRows es = (es.map (fun e => Tmpl.sprintfA (Facts.quantityFormats.getD 0 []) [.q e.value, .s e.name])).flatten
+    ∧ valueRows es = (es.map (fun e => Tmpl.sprintfA (Facts.quantityFormats.getD 1 []) [.q e.value, .s e.name])).flatten := by
+  simp only [valueRows, Tmpl.row_q0, Tmpl.row_q1, and_self]
+
+/-- every regenerated format of the period reporters, the balance reporters and `print` uses only modelled verbs, and number
+    verbs exactly where the call passes a number -/
+theorem formats_well_typed :
+    Tmpl.signature (Facts.totalFormats.getD 0 []) = some [false, false, false, false]
+    ∧ Tmpl.signature (Facts.totalFormats.getD 1 []) = some [true, true, true, false]
+    ∧ Tmpl.signature (Facts.quantityFormats.getD 0 []) = some [true, false]
+    ∧ Tmpl.signature (Facts.quantityFormats.getD 1 []) = some [true, false]
+    ∧ (∀ i, i < 4 → Tmpl.signature (Facts.balanceFormats.getD i []) = some [true, false, false])
+    ∧ Tmpl.signature (Facts.balanceSingleFormats.getD 0 []) = some [false]
+    ∧ Tmpl.signature (Facts.balanceSingleFormats.getD 1 []) = some [true, false]
+    ∧ Tmpl.signature (Facts.printFormats.getD 0 []) = some [false]
+    ∧ Tmpl.signature (Facts.printFormats.getD 1 []) = some [false, false]
+    ∧ Tmpl.signature (Facts.printFormats.getD 2 []) = some [false]
+    ∧ Tmpl.signature (Facts.printFormats.getD 3 []) = some [false, true] := by
+  refine ⟨by decide +kernel, by decide +kernel, by decide +kernel, by decide +kernel, ?_, by decide +kernel, by decide +kernel,
+    by decide +kernel, by decide +kernel, by decide +kernel, by decide +kernel⟩
+  intro i h
+  have : i = 0 ∨ i = 1 ∨ i = 2 ∨ i = 3 := by omega
+  rcases this with rfl | rfl | rfl | rfl <;> decide +kernel
+
+example : Tmpl.sprintfA (Facts.totalFormats.getD 1 []) [.q (3/2), .q (-1/4), .q (5/4), .s [120]]
+    = Bytes.ofString "        1.50         -0.25          1.25  x\n" := by decide +kernel
 
 end Hrano.C07
